@@ -184,6 +184,11 @@ func getObjPrototype() *Value {
 				Tag: ValueNativeFn,
 				NativeFn: func(e *Evaluator, v []*Value, this *Value) (*Value, error) {
 					newObj := NewObject()
+					if this == nil || this.Tag != ValueObj {
+						// called without an object receiver (the method itself was
+						// plucked out of an object and called as a plain value)
+						return &newObj, nil
+					}
 					for _, value := range v {
 						val, err := this.GetMember(*value)
 						if err != nil {
